@@ -9,7 +9,7 @@ for f in ("patch.diff", "demo.rs"):
     shutil.copy(os.path.join(src, f), os.path.join(dst, f))
 m = json.load(open(os.path.join(src, "meta.json")))
 m.update({"property": pid, "confirmed_by_lead": True,
-          "what_was_run": ["scratch worktree of /repo HEAD: examples/mutdemo.rs passes without the patch, fails with it; cargo test --workspace --no-fail-fast --offline passes with the patch (tools/try_mutation.sh)",
-                           f"git -C /repo apply patch.diff; python3 check.py {pid}; git -C /repo checkout -- ."],
+          "what_was_run": ["private copy of /repo HEAD: examples/mutdemo.rs passes without the patch (debug and release), fails with it; cargo test --workspace --no-fail-fast --offline passes with the patch (tools/try_mutation_ns.sh)",
+                           f"patch applied to the private copy, bind-mounted over /repo in a mount namespace together with a copy of /verif; python3 check.py {pid} --tier quick there (equivalent to git -C /repo apply; check; git -C /repo checkout -- .)"],
           "detected": det == "yes", "check_verdict": verdict})
 json.dump(m, open(os.path.join(dst, "meta.json"), "w"), indent=1)
